@@ -274,9 +274,11 @@ Proof.
   - cbn [wf_trace enabled]. split; [vm_compute; reflexivity|]. split; [|exact I].
     split; [|split; [reflexivity|discriminate]].
     split; [apply shape_partial; reflexivity|]. split; [repeat constructor|].
-    apply (ready_b_sound w_env); [|vm_compute; reflexivity].
-    apply dom_apply_ops; [repeat constructor|].
     assert (R : reach w_env (fst (step_f w_env [FMain] inst_empty w_full2))).
     { exact (step_reach w_env [FMain] inst_empty w_full2 w_range (reach_empty w_env) w_wf1 eq_refl). }
-    exact (proj1 R).
+    split.
+    + apply (ready_b_sound w_env); [|vm_compute; reflexivity].
+      apply dom_apply_ops; [repeat constructor|]. exact (proj1 R).
+    + apply (tracked_b_sound w_env); [|vm_compute; reflexivity].
+      apply dom_apply_ops; [repeat constructor|]. exact (proj1 R).
 Qed.
